@@ -1,4 +1,184 @@
+import IpcHub.Drv.Util
+import IpcHub.Model.CodecInst
+import IpcHub.Spec.H264Syntax
+/-!
+Driver of C15 (codec parameter parsing).  Ops (the leading `c15` is already stripped):
+
+* `bits <hex> <op>…`   run reader operations on a fresh reader over the bytes; ops:
+  `b` ReadBit · `u<n>.<max>` readUint64(n,max) · `s<n>` Skip · `p<n>` Peek · `e` ReadUe ·
+  `g` ReadSe · `l` BitsLeft  →  `v1,v2,…` with `panic` as the last item when an op panicked
+* `epb <hex>`          → `model=<hex of RemoveH264or5EmulationBytes> ins=<hex of the standard's insertion>`
+* `h264dec <hex>`      → `ok dims=<w,h,fixed,fpsN/fpsD> dump=<fields>` | `err=<kind>`
+* `h264enc k=v …`      → `bytes=<hex> spec=<w,h,fixed,fps> raw=<fields expected>` then the same as h264dec for those bytes
+-/
 namespace IpcHub.Drv.C15
-/-- placeholder: no model built for this property yet -/
-def handle (_ : List String) : String := "bad-op"
+open IpcHub.Drv IpcHub.Bits
+
+def joinWith (sep : String) (l : List String) : String := sep.intercalate l
+
+def faultStr : Fault → String
+  | .panic => "panic"
+  | .err k => s!"e{k}"
+
+/-! ### bits -/
+
+def splitDot (s : String) : List String := s.splitOn "."
+
+def runOp (se : Bool) (op : String) (s : List Bool) : Except Fault (String × List Bool) :=
+  let c := op.front
+  let rest := (op.drop 1).toString
+  let n := rest.toNat?.getD 0
+  if c = 'b' then (readBit s).map (fun (v, s') => (toString v, s'))
+  else if c = 'u' then
+    match splitDot rest with
+    | [a, b] => (readU (a.toNat?.getD 0) (b.toNat?.getD 0) s).map (fun (v, s') => (toString v, s'))
+    | _ => .ok ("bad", s)
+  else if c = 's' then (skip n s).map (fun (_, s') => ("_", s'))
+  else if c = 'p' then (peek n s).map (fun (v, s') => (toString v, s'))
+  else if c = 'e' then (readUe s).map (fun (v, s') => (toString v, s'))
+  else if c = 'g' then (readSeC se s).map (fun (v, s') => (toString v, s'))
+  else if c = 'l' then (bitsLeft s).map (fun (v, s') => (toString v, s'))
+  else .ok ("bad", s)
+
+def runOps (se : Bool) : List String → List Bool → List String → List String
+  | [], _, acc => acc.reverse
+  | op :: ops, s, acc =>
+    match runOp se op s with
+    | .ok (v, s') => runOps se ops s' (v :: acc)
+    | .error _ => ("panic" :: acc).reverse
+
+/-! ### dumps (must agree character by character with the Go harness) -/
+
+def nats (l : List Nat) : String := joinWith "," (l.map toString)
+def ints (l : List Int) : String := joinWith "," (l.map toString)
+
+def trimZeros (l : List Int) : List Int := (l.reverse.dropWhile (· == 0)).reverse
+
+def dotInts (l : List Int) : String := "[" ++ joinWith "." (l.map toString) ++ "]"
+
+open IpcHub.H264 in
+def dumpHrd (h : Hrd) : String :=
+  nats [h.cpbCntMinus1, h.bitRateScale, h.cpbSizeScale] ++ ",[" ++
+  joinWith "." (h.entries.map (fun (a, b, c) => s!"{a}/{b}/{c}")) ++ "]," ++
+  nats [h.initialCpbRemovalDelayLengthMinus1, h.cpbRemovalDelayLengthMinus1, h.dpbOutputDelayLengthMinus1, h.timeOffsetLength]
+
+open IpcHub.H264 in
+def dumpSps (s : RawSps) : String :=
+  let h := s.hdr; let c := s.chroma; let p := s.poc; let f := s.frame; let v := s.vui
+  "H=" ++ nats [h.forbiddenZeroBit, h.nalRefIdc, h.nalUnitType, h.profileIdc, h.constraintSet0Flag, h.constraintSet1Flag,
+    h.constraintSet2Flag, h.constraintSet3Flag, h.constraintSet4Flag, h.constraintSet5Flag, h.reservedZero2Bits, h.levelIdc, h.seqParameterSetID] ++
+  ";C=" ++ nats [c.chromaFormatIdc, c.separateColourPlaneFlag, c.bitDepthLumaMinus8, c.bitDepthChromaMinus8,
+    c.qpprimeYZeroTransformBypassFlag, c.seqScalingMatrixPresentFlag] ++ ",[" ++ joinWith "." (c.seqScalingListPresentFlag.map toString) ++ "]," ++
+    joinWith "" (c.scalingLists.map (fun l => dotInts (trimZeros l))) ++
+  ";P=" ++ nats [p.log2MaxFrameNumMinus4, p.picOrderCntType, p.log2MaxPicOrderCntLsbMinus4, p.deltaPicOrderAlwaysZeroFlag] ++ "," ++
+    ints [p.offsetForNonRefPic, p.offsetForTopToBottomField] ++ "," ++ toString p.numRefFramesInPicOrderCntCycle ++ "," ++ dotInts p.offsetForRefFrame ++
+  ";F=" ++ nats [f.maxNumRefFrames, f.gapsInFrameNumAllowedFlag, f.picWidthInMbsMinus1, f.picHeightInMapUnitsMinus1, f.frameMbsOnlyFlag,
+    f.mbAdaptiveFrameFieldFlag, f.direct8x8InferenceFlag, f.frameCroppingFlag, f.frameCropLeftOffset, f.frameCropRightOffset,
+    f.frameCropTopOffset, f.frameCropBottomOffset] ++
+  ";V=" ++ nats [s.vuiParametersPresentFlag, v.aspectRatioInfoPresentFlag, v.aspectRatioIdc, v.sarWidth, v.sarHeight, v.overscanInfoPresentFlag,
+    v.overscanAppropriateFlag, v.videoSignalTypePresentFlag, v.videoFormat, v.videoFullRangeFlag, v.colourDescriptionPresentFlag,
+    v.colourPrimaries, v.transferCharacteristics, v.matrixCoefficients, v.chromaLocInfoPresentFlag, v.chromaSampleLocTypeTopField,
+    v.chromaSampleLocTypeBottomField, v.timingInfoPresentFlag, v.numUnitsInTick, v.timeScale, v.fixedFrameRateFlag,
+    v.nalHrdParametersPresentFlag, v.vclHrdParametersPresentFlag, v.lowDelayHrdFlag, v.picStructPresentFlag, v.bitstreamRestrictionFlag,
+    v.motionVectorsOverPicBoundariesFlag, v.maxBytesPerPicDenom, v.maxBitsPerMbDenom, v.log2MaxMvLengthHorizontal,
+    v.log2MaxMvLengthVertical, v.maxNumReorderFrames, v.maxDecFrameBuffering] ++
+  ";N=" ++ dumpHrd v.nalHrd ++ ";L=" ++ dumpHrd v.vclHrd
+
+def fpsStr : Option (Nat × Nat) → String
+  | none => "0"
+  | some (n, d) => s!"{n}/{d}"
+
+open IpcHub.H264 in
+def dimsStr (d : VideoDims) : String := s!"{d.width},{d.height},{boolStr d.fixed},{fpsStr d.fps}"
+
+open IpcHub.H264 in
+def h264dec (bytes : List UInt8) : String :=
+  match decode genCfg bytes with
+  | .ok s => s!"ok dims={dimsStr (dimsOf genCfg s)} dump={dumpSps s}"
+  | .error e => s!"err={faultStr e}"
+
+/-! ### key=value input for the encoders -/
+
+def kvOf (ts : List String) : List (String × String) :=
+  ts.filterMap (fun t => match t.splitOn "=" with
+    | [k, v] => some (k, v)
+    | _ => none)
+
+def getS (kv : List (String × String)) (k : String) : String := (kv.lookup k).getD ""
+def getN (kv : List (String × String)) (k : String) : Nat := (getS kv k).toNat?.getD 0
+def getI (kv : List (String × String)) (k : String) : Int := (getS kv k).toInt?.getD 0
+def getB (kv : List (String × String)) (k : String) : Bool := getS kv k == "1"
+/-- `a.b.c` (or `e`/empty for the empty list) -/
+def parseInts (s : String) : List Int :=
+  if s == "" || s == "e" then [] else (s.splitOn ".").map (fun x => x.toInt?.getD 0)
+def getL (kv : List (String × String)) (k : String) : List Int := parseInts (getS kv k)
+/-- scaling lists: `-|1.2|e|…` (`-` = flag 0) -/
+def getSL (kv : List (String × String)) (k : String) : List (Option (List Int)) :=
+  let s := getS kv k
+  if s == "" then [] else (s.splitOn "|").map (fun x => if x == "-" then none else some (parseInts x))
+/-- cpb entries `br/cs/cbr.br/cs/cbr` -/
+def getCpb (kv : List (String × String)) (k : String) : List (Nat × Nat × Bool) :=
+  let s := getS kv k
+  if s == "" then [] else (s.splitOn ".").map (fun x => match x.splitOn "/" with
+    | [a, b, c] => (a.toNat?.getD 0, b.toNat?.getD 0, c == "1")
+    | _ => (0, 0, false))
+
+open IpcHub.H264Syntax in
+def hrdOf (kv : List (String × String)) (p : String) : HrdSyntax :=
+  { bit_rate_scale := getN kv (p ++ "brs"), cpb_size_scale := getN kv (p ++ "css"), cpb := getCpb kv (p ++ "cpb"),
+    initial_cpb_removal_delay_length_minus1 := getN kv (p ++ "l1"), cpb_removal_delay_length_minus1 := getN kv (p ++ "l2"),
+    dpb_output_delay_length_minus1 := getN kv (p ++ "l3"), time_offset_length := getN kv (p ++ "l4") }
+
+open IpcHub.H264Syntax in
+def spsOf (kv : List (String × String)) : SpsSyntax :=
+  { nal_ref_idc := getN kv "ref", profile_idc := getN kv "profile",
+    constraint_set0_flag := getB kv "c0", constraint_set1_flag := getB kv "c1", constraint_set2_flag := getB kv "c2",
+    constraint_set3_flag := getB kv "c3", constraint_set4_flag := getB kv "c4", constraint_set5_flag := getB kv "c5",
+    level_idc := getN kv "level", seq_parameter_set_id := getN kv "id", chroma_format_idc := getN kv "cf",
+    separate_colour_plane_flag := getB kv "sep", bit_depth_luma_minus8 := getN kv "bdl", bit_depth_chroma_minus8 := getN kv "bdc",
+    qpprime_y_zero_transform_bypass_flag := getB kv "qp", seq_scaling_matrix_present_flag := getB kv "sm",
+    scaling_lists := getSL kv "sl", log2_max_frame_num_minus4 := getN kv "fn", pic_order_cnt_type := getN kv "pt",
+    log2_max_pic_order_cnt_lsb_minus4 := getN kv "lsb", delta_pic_order_always_zero_flag := getB kv "dz",
+    offset_for_non_ref_pic := getI kv "o1", offset_for_top_to_bottom_field := getI kv "o2", offset_for_ref_frame := getL kv "offs",
+    max_num_ref_frames := getN kv "refs", gaps_in_frame_num_value_allowed_flag := getB kv "gaps",
+    pic_width_in_mbs_minus1 := getN kv "w", pic_height_in_map_units_minus1 := getN kv "h", frame_mbs_only_flag := getB kv "fmo",
+    mb_adaptive_frame_field_flag := getB kv "mbaff", direct_8x8_inference_flag := getB kv "d8", frame_cropping_flag := getB kv "crop",
+    frame_crop_left_offset := getN kv "cl", frame_crop_right_offset := getN kv "cr", frame_crop_top_offset := getN kv "ct",
+    frame_crop_bottom_offset := getN kv "cb", vui_parameters_present_flag := getB kv "vui",
+    vui := { aspect_ratio_info_present_flag := getB kv "ar", aspect_ratio_idc := getN kv "aridc", sar_width := getN kv "sarw",
+             sar_height := getN kv "sarh", overscan_info_present_flag := getB kv "os", overscan_appropriate_flag := getB kv "osa",
+             video_signal_type_present_flag := getB kv "vs", video_format := getN kv "vfmt", video_full_range_flag := getB kv "vfr",
+             colour_description_present_flag := getB kv "cd", colour_primaries := getN kv "cprim", transfer_characteristics := getN kv "ctrans",
+             matrix_coefficients := getN kv "cmat", chroma_loc_info_present_flag := getB kv "loc",
+             chroma_sample_loc_type_top_field := getN kv "loct", chroma_sample_loc_type_bottom_field := getN kv "locb",
+             timing_info_present_flag := getB kv "ti", num_units_in_tick := getN kv "nut", time_scale := getN kv "ts",
+             fixed_frame_rate_flag := getB kv "ffr", nal_hrd_parameters_present_flag := getB kv "nal", nal_hrd := hrdOf kv "n.",
+             vcl_hrd_parameters_present_flag := getB kv "vcl", vcl_hrd := hrdOf kv "v.", low_delay_hrd_flag := getB kv "low",
+             pic_struct_present_flag := getB kv "ps", bitstream_restriction_flag := getB kv "br",
+             motion_vectors_over_pic_boundaries_flag := getB kv "mv", max_bytes_per_pic_denom := getN kv "r1",
+             max_bits_per_mb_denom := getN kv "r2", log2_max_mv_length_horizontal := getN kv "r3",
+             log2_max_mv_length_vertical := getN kv "r4", max_num_reorder_frames := getN kv "r5", max_dec_frame_buffering := getN kv "r6" } }
+
+open IpcHub.H264Syntax in
+def h264enc (kv : List (String × String)) : String :=
+  let s := spsOf kv
+  let bytes := encSpsNal s
+  s!"bytes={bytesToHex bytes} spec={croppedWidth s},{croppedHeight s},{boolStr (fixedFrameRate s)},{fpsStr (frameRate s)} " ++ h264dec bytes
+
+def handle : List String → String
+  | "bits" :: hex :: ops =>
+    match hexToBytes hex with
+    | some bs => joinWith "," (runOps IpcHub.Gen.readSeFromUe ops (bitsOfBytes bs) [])
+    | none => "bad-op"
+  | ["epb", hex] =>
+    match hexToBytes hex with
+    | some bs => s!"model={bytesToHex (IpcHub.Epb.removeEmulationBytes bs)} ins={bytesToHex (IpcHub.BitSyntax.insertEpb bs)}"
+    | none => "bad-op"
+  | ["h264dec", hex] =>
+    match hexToBytes hex with
+    | some bs => h264dec bs
+    | none => "bad-op"
+  | "h264enc" :: kv => h264enc (kvOf kv)
+  | _ => "bad-op"
+
 end IpcHub.Drv.C15
